@@ -11,12 +11,12 @@ def gens(tier):
 
 
 def check_c13(pid, tier, replay):
-    endpoint.run(pid, tier, replay, ("C13_",), [("endpoint/LinkLife", None)], gens(tier), RULE)
+    endpoint.run(pid, tier, replay, ("C13_",), [("endpoint/LinkLife", None)], gens(tier) + endpoint.mix_gens(pid, tier), RULE + endpoint.MIX_RULE)
 
 
 def check_c11(pid, tier, replay):
     from props import session
-    g = gens(tier) + receiver.gens(tier)[:1] + [("endpoint/SessGen", "endpoint/SessGen_e.cfg"), ("endpoint/SettleGen", "endpoint/SettleGen_sw.cfg")]
+    g = gens(tier) + receiver.gens(tier)[:1] + [("endpoint/SessGen", "endpoint/SessGen_e.cfg"), ("endpoint/SettleGen", "endpoint/SettleGen_sw.cfg")] + endpoint.mix_gens(pid, tier)
     # routing of incoming dispositions to the link they belong to shows as the send resolving, with its own outcome
     endpoint.run(pid, tier, replay, ("C11_", "C02_OwnOutcome", "C02_Resolves_Q", "C12_NoSpontaneousError"), [("endpoint/Ids", None)], g,
                  RULE + "; plus the RecvGen (routing of incoming deliveries), link-split SessGen scripts and the SettleGen disposition scripts with the peer's handles for the two links "
